@@ -7,6 +7,7 @@
     [C19_pseudo_unique_refuted] / [C19_content_length_numeric_refuted] were provable. *)
 From Coq Require Import List ZArith Bool String.
 From V Require Import Gen.Params Lib.Hex H3Headers.Model H3Headers.Spec H3Headers.Proofs H3Headers.ProofsParse H3Headers.ProofsMain H3Headers.ProofsComplete.
+From V Require Import H3Writers.Model H3Writers.Proofs H3Writers.ProofsAgree.
 Import ListNotations.
 Open Scope Z_scope.
 
@@ -33,8 +34,9 @@ Print Assumptions C19_content_length_numeric.
 
 (** The witnesses of the repaired defects are rejected as malformed. *)
 Example C19_dup_witness_rejected :
-  parseHeaders true 65536 dup_witness false = inl (EMalformed DupPseudo) /\
-  parseHeaders false 65536 [mk ":status" ""; mk ":status" "200"] false = inl (EMalformed DupPseudo).
+  parseHeaders true 65536 dup_witness false = inl (EMalformed EmptyPseudo) /\
+  parseHeaders false 65536 [mk ":status" ""; mk ":status" "200"] false = inl (EMalformed EmptyPseudo) /\
+  parseHeaders true 65536 [mk ":method" "GET"; mk ":path" "/b"; mk ":path" "/a"] false = inl (EMalformed DupPseudo).
 Proof. exact dup_witness_rejected. Qed.
 Print Assumptions C19_dup_witness_rejected.
 
@@ -95,8 +97,13 @@ Theorem C19_trailers_reject : forall lim fs te,
 Proof. exact parseTrailers_reject. Qed.
 Print Assumptions C19_trailers_reject.
 
-(** Request construction: what requestFromHeaders enforces ([request_rules_x]: by emptiness,
-    :scheme only for extended CONNECT) ... *)
+(** Trailer sections: acceptance is EXACTLY [WFtrailer]. *)
+Theorem C19_trailers_iff : forall lim fs,
+  0 <= lim -> ((exists m, parseTrailers lim fs false = inr m) <-> WFtrailer lim fs).
+Proof. exact parseTrailers_iff. Qed.
+Print Assumptions C19_trailers_iff.
+
+(** Request construction: what requestFromHeaders enforces ([request_rules_x]) ... *)
 Theorem C19_request_rules : forall lim fs te uri r,
   0 <= lim -> requestFromHeaders lim fs te uri = inr r ->
   te = false /\ WF true lim fs /\ request_rules_x fs /\
@@ -105,23 +112,32 @@ Theorem C19_request_rules : forall lim fs te uri r,
 Proof. exact requestFromHeaders_sound. Qed.
 Print Assumptions C19_request_rules.
 
-(** ... which is the RFC's rule set (by presence) whenever no pseudo-header is empty and the
-    one thing the code never looks at, :scheme of a non-extended request, is as the RFC wants. *)
-Theorem C19_request_rules_rfc : forall fs,
-  request_rules_x fs -> no_empty_pseudo fs -> scheme_rule fs -> request_rules fs.
-Proof. exact request_rules_from_x. Qed.
+(** ... which is the RFC's rule set (by presence; empty pseudo-header values are malformed, so
+    emptiness and absence coincide) except for the one thing the code still does not look at: the
+    presence of :scheme on a non-CONNECT request. *)
+Theorem C19_request_rules_rfc : forall lim fs,
+  WF true lim fs -> request_rules_x fs -> scheme_rule fs -> request_rules fs.
+Proof. exact request_rules_rfc. Qed.
 Print Assumptions C19_request_rules_rfc.
 
-(** FINDINGS still open (low severity): a request without :scheme, and a CONNECT with :scheme, are accepted. *)
+(** FINDING still open (low severity, pinned by the in-tree TestRequestHeaderParsing): a request
+    without :scheme is accepted. *)
 Theorem C19_request_scheme_refuted :
   exists fs r, requestFromHeaders 65536 fs false any_uri = inr r /\ ~ request_rules fs.
 Proof. exact request_scheme_refuted. Qed.
 Print Assumptions C19_request_scheme_refuted.
 
-Theorem C19_connect_scheme_refuted :
-  exists fs r, requestFromHeaders 65536 fs false any_uri = inr r /\ ~ request_rules fs.
-Proof. exact connect_scheme_refuted. Qed.
-Print Assumptions C19_connect_scheme_refuted.
+(** The witnesses of the repaired CONNECT deviations (CONNECT with :scheme, with an empty :path,
+    with an empty :protocol) are rejected as malformed. *)
+Example C19_connect_witnesses_rejected :
+  requestFromHeaders 65536 [mk ":method" "CONNECT"; mk ":authority" "example.com:443"; mk ":scheme" "https"] false any_uri
+    = inl (EMalformed ConnectSchemeRule) /\
+  requestFromHeaders 65536 [mk ":method" "CONNECT"; mk ":authority" "example.com:443"; mk ":path" ""] false any_uri
+    = inl (EMalformed EmptyPseudo) /\
+  requestFromHeaders 65536 [mk ":method" "CONNECT"; mk ":protocol" ""; mk ":authority" "example.com:443"] false any_uri
+    = inl (EMalformed EmptyPseudo).
+Proof. exact connect_witnesses_rejected. Qed.
+Print Assumptions C19_connect_witnesses_rejected.
 
 (** Responses: :status present, non-empty, an integer. *)
 Theorem C19_response_rules : forall lim fs te r,
@@ -170,3 +186,96 @@ Example C19_nonvacuous_rejection :
   ~ WF true 65536 [mk ":method" "GET"; mk "x" "a"; mk ":path" "/"].
 Proof. exact nonvacuous_rejection. Qed.
 Print Assumptions C19_nonvacuous_rejection.
+
+(** ** (c) Writers and parser agree (model H3Writers, tied to requestWriter / responseWriter /
+    writeTrailers by the h3writers correspondence run).
+
+    What encodeHeaders rejects, explicitly: a host that is not a valid Host header, a target that
+    is no valid :path even after stripping scheme://host, a header name that is no token, a
+    header value with a forbidden byte, a TE value other than "trailers". *)
+Theorem C19_request_writer_rejects : forall q,
+  emit_request q = None <->
+  (wHostOK q = false \/ (sends_path q = true /\ wpath q = None) \/
+   exists e, In e (wHeader q) /\ header_entry_ok e = false).
+Proof. exact request_writer_rejects. Qed.
+Print Assumptions C19_request_writer_rejects.
+
+(** For EVERY abstract request the writer accepts (any iteration order of the header map) and
+    whose caller-provided values are sane ([wreq_pre]: non-empty host, legal bytes in the
+    pseudo-header values, a target url.ParseRequestURI accepts, Content-Length < 2^63), the
+    emitted list is accepted by parseHeaders + requestFromHeaders within any limit it fits, and
+    yields the same method (GET for ""), authority, target, protocol and Content-Length. *)
+Theorem C19_writer_parser_agree : forall q uri lim pre mid post,
+  emit_request3 q = Some (pre, mid, post) -> wreq_pre q uri ->
+  section_size (pre ++ mid ++ post) <= lim ->
+  exists r, requestFromHeaders lim (pre ++ mid ++ post) false uri = inr r /\
+    rqMethod r = eff_method q /\ rqHost r = wHost q /\
+    rqURI r = (if is_connect q then wHost q else the_path q) /\
+    rqProto r = (if is_ext_connect q then wProto q else bs "HTTP/3.0") /\
+    rqCL r = (if send_cl (wMethod q) (wCL q) then wCL q else -1).
+Proof. exact request_agree. Qed.
+Print Assumptions C19_writer_parser_agree.
+
+(** ... and its header fields are exactly the entries of req.Header minus the documented drops
+    (host, content-length, connection-specific names, all but the first non-empty User-Agent),
+    which the parser files under the canonical key, values in order ([C19_header_map]). *)
+Theorem C19_request_writer_fields : forall q n v,
+  In (F n v) (req_mid q) <->
+  exists k vs, In (k, vs) (wHeader q) /\ n = lower_bytes k /\ dropped_name k = false /\
+    (if eqfold k "user-agent" then exists r, vs = v :: r /\ v <> [] else In v vs).
+Proof. exact request_mid_fields. Qed.
+Print Assumptions C19_request_writer_fields.
+
+Theorem C19_header_map : forall isReq lim fs n,
+  WF isReq lim fs -> token_ok n = true -> lower_ok n = true -> n <> bs "content-length" ->
+  hget (canon n) (headers_of fs) = match field_values n fs with [] => None | vs => Some vs end.
+Proof. exact header_map_values. Qed.
+Print Assumptions C19_header_map.
+
+(** Responses: whatever writeHeader emits for a status 100..999 and a header map whose
+    non-"Trailer:" keys are tokens with legal values and a sane Content-Length is accepted by
+    updateResponseFromHeaders with the same status (connection-specific fields, TE != trailers,
+    declared trailers and "Trailer:" keys having been left out by the writer). *)
+Theorem C19_writer_parser_agree_response : forall status h lim,
+  100 <= status <= 999 -> rsp_hdr_ok h -> rsp_cl_ok h -> section_size (rsp_fields status h) <= lim ->
+  exists r, updateResponseFromHeaders lim (rsp_fields status h) false = inr r /\
+            rsCode r = status /\ rsCL r = hCL (hdr_of (rsp_fields status h)).
+Proof. exact response_agree. Qed.
+Print Assumptions C19_writer_parser_agree_response.
+
+(** Trailers (both writers): a written trailer section is never empty, is accepted by
+    parseTrailers and decodes to the same fields; and NOTHING is written exactly when no
+    sendable trailer has a value (the emit / no-emit decision). *)
+Theorem C19_writer_parser_agree_trailers : forall t fs lim,
+  write_trailers t = Some fs -> tmap_ok t -> section_size fs <= lim ->
+  fs <> [] /\ parseTrailers lim fs false = inr (trailers_of fs).
+Proof. exact trailers_agree. Qed.
+Print Assumptions C19_writer_parser_agree_trailers.
+
+Theorem C19_trailers_emit_decision : forall t,
+  write_trailers t = None <-> (forall k vs, In (k, vs) t -> valid_to_send k = true -> vs = []).
+Proof. exact trailers_none. Qed.
+Print Assumptions C19_trailers_emit_decision.
+
+Example C19_nonvacuous_writer_request :
+  wreq_pre ex_req any_uri /\
+  emit_request ex_req = Some
+    [mk ":authority" "example.com"; mk ":method" "POST"; mk ":path" "/a?b=c"; mk ":scheme" "https";
+     mk "trailer" "X-Checksum"; mk "accept" "text/html"; mk "cookie" "a=1"; mk "cookie" "b=2"; mk "te" "trailers";
+     mk "content-length" "5"; mk "accept-encoding" "gzip"; F (bs "user-agent") (hx h3DefaultUserAgent)].
+Proof. exact (conj ex_req_pre ex_req_emitted). Qed.
+Print Assumptions C19_nonvacuous_writer_request.
+
+Example C19_nonvacuous_writer_response :
+  rsp_hdr_ok [(bs "Content-Type", [bs "text/plain"]); (bs "Connection", [bs "close"]); (bs "Content-Length", [bs "5"])] /\
+  rsp_cl_ok [(bs "Content-Type", [bs "text/plain"]); (bs "Connection", [bs "close"]); (bs "Content-Length", [bs "5"])] /\
+  rsp_fields 200 [(bs "Content-Type", [bs "text/plain"]); (bs "Connection", [bs "close"]); (bs "Content-Length", [bs "5"])] =
+  [mk ":status" "200"; mk "content-type" "text/plain"; mk "content-length" "5"].
+Proof. exact ex_rsp_ok. Qed.
+Print Assumptions C19_nonvacuous_writer_response.
+
+Example C19_nonvacuous_writer_trailers :
+  write_trailers [(bs "X-Checksum", [bs "abc"]); (bs "Upgrade", [bs "x"]); (bs "X-Empty", [])] = Some [mk "x-checksum" "abc"] /\
+  write_trailers [(bs "X-Checksum", []); (bs "Upgrade", [bs "x"]); (bs "Content-Length", [bs "5"])] = None.
+Proof. exact ex_trailers. Qed.
+Print Assumptions C19_nonvacuous_writer_trailers.
